@@ -14,6 +14,7 @@ kernels are runtime behaviour; they are explored by tools/props/c12.py. What the
 -/
 import PrqlModel.Lemmas.Text
 import PrqlModel.Props.C13
+import PrqlModel.Lemmas.Anchor
 namespace Props.C12
 open Model.Text
 
@@ -113,5 +114,33 @@ theorem lineCol_linear (s : Src) (off : Nat) :
 example : composed ['a', 'b', '\n', 'c'] ⟨1, 4, 1⟩ = .ok ⟨(0, 1), (1, 1)⟩ := by decide
 example : composed ['a', 'b', '\n', 'c'] ⟨3, 2, 1⟩ = .panicLabelOrder := by decide
 example : composed ['a', 'b', '\n', 'c'] ⟨3, 5, 1⟩ = .panicOutOfBounds := by decide
+
+/-! ## T2 the unwraps of the pipeline splitter (mirror: Model.Anchor, see Props/C07)
+
+`extract_atomic` / `anchor_split` (sql/pq/anchor.rs) unwrap: the Select of the atomic part
+(`find_map(.. as_select ..).unwrap()`), the Select that ends the preceding part (`preceding.last().unwrap() .. as_select().unwrap()`)
+and the declaration of every column at the split (`ctx.column_decls.get(old_cid).unwrap()`). On the mirror none of them can fail
+for a well-formed pipeline. -/
+section SplitterUnwraps
+open Model.Anchor Lemmas.Anchor
+
+/-- **splitter_unwraps_succeed.** (a) the atomic part always starts with its Select; (b) a preceding part, when there is one,
+ends with the Select of the missing columns; (c) every column at the split is defined by a transform of the preceding part
+(AnchorContext holds a declaration for every instance column and every compute). -/
+theorem splitter_unwraps_succeed (decls : List Comp) (p : List Tr) (out : List CId) (hwf : wfPipe p out = true) :
+    (∃ sel, (splitOffBack decls p out).atomic.head? = some (.select sel)) ∧
+    (∀ q, (splitOffBack decls p out).preceding = some q →
+        q.getLast? = some (.select (splitOffBack decls p out).missing)) ∧
+    (∀ c ∈ (splitOffBack decls p out).missing, c ∈ defsOf (splitOffBack decls p out).rest) := by
+  refine ⟨⟨_, rfl⟩, ?_, (split_scope decls p out hwf).2.2.2.2.1⟩
+  intro q hq
+  simp only [SplitResult.preceding] at hq
+  split at hq
+  · simp at hq
+  · simp only [Option.some.injEq] at hq
+    subst hq
+    simp
+
+end SplitterUnwraps
 
 end Props.C12
